@@ -111,6 +111,17 @@ def _worker(args):
                 ob["cex"]["replay_status"] = st
                 ob["cex"]["replay_failed"] = [f[0] for f in v.failed]
                 ob["cex"]["replay_error"] = getattr(v, "error", None)
+                if st == "ok":
+                    # the real code satisfies the contract on the counter-model's input.  Does the engine, run on that same concrete input, say
+                    # otherwise?  Then the counter-model is an infidelity of the engine shown on this very input (a checker error), not a
+                    # statement about the code.
+                    try:
+                        d = run.differential_one(h, ob["cex"]["inputs"], repo, v)
+                    except BaseException as ex:
+                        d = None
+                    if d is not None:
+                        ob["cex"]["replay_status"] = "engine-disagrees"
+                        ob["cex"]["engine_mismatch"] = d
                 ob["cex"]["inputs"] = run.jsonable(ob["cex"]["inputs"])
             elif ob["status"] == "failed" and ob["cex"]:
                 ob["cex"]["replay_status"] = "no-inputs"
